@@ -195,6 +195,7 @@ def main():
     if not ck.build():
         ck.finish()
     ck.check_props()
+    ck.check_translation("pstring")
     nmax = 3 if ck.quick else 4
     dist = {}
     # (i) exhaustive pairs, dense comparison on the implementation side for n<=3
